@@ -240,6 +240,19 @@ class Parser:
                     ):
                         t.type = "UNQUOTED_STRING_VALUE"
 
+                elif t.type == "FEATURE":
+                    # Unquoted 'FEATURE' coming after IMAGEMODE is always a value, not a composite type
+                    last = (
+                        ip.parser_state.value_stack[-1]
+                        if ip.parser_state.value_stack
+                        else None
+                    )
+                    if (
+                        getattr(last, "type", None) == "UNQUOTED_STRING"
+                        and last.value.upper() == "IMAGEMODE"
+                    ):
+                        t.type = "UNQUOTED_STRING_VALUE"
+
             tree = ip.resume_parse()
             if self.include_comments:
                 self.comments_dict = {}
